@@ -34,7 +34,7 @@ ASSUMPTIONS = [
     "h is always followed by m, re, a painting operator or n; cs/CS is always followed by the matching sc/SC before painting",
     "a quadrilateral closed by returning to the start without h may be classified rectangle or curve",
 ]
-PROBES = ["colour space from resources", "undefined colour space name", "two documents in sequence", "polyline revisits a vertex", "painted path without moveto", "q nesting beyond 28", "sc in current colour space", "open four-segment polyline", "rect via re", "rect via mlllh", "rect reversed orientation", "quadrilateral not axis-aligned after CTM", "line ml", "line mlh", "curve with c/v/y", "several subpaths in one path", "path ended by n", "lone moveto", "q/Q nesting >= 3", "unbalanced Q", "colour space switch inside q/Q", "dash pattern", "close-and-paint operator", "split into >1 streams"]
+PROBES = ["earlier page ends inside a path", "colour space from resources", "undefined colour space name", "two documents in sequence", "polyline revisits a vertex", "painted path without moveto", "q nesting beyond 28", "sc in current colour space", "open four-segment polyline", "rect via re", "rect via mlllh", "rect reversed orientation", "quadrilateral not axis-aligned after CTM", "line ml", "line mlh", "curve with c/v/y", "several subpaths in one path", "path ended by n", "lone moveto", "q/Q nesting >= 3", "unbalanced Q", "colour space switch inside q/Q", "dash pattern", "close-and-paint operator", "split into >1 streams"]
 TIERS = {
     "quick": {"batches": 16, "runs": 1200, "budget_s": 45},
     "thorough": {"batches": 128, "runs": 8000, "budget_s": 900},
@@ -285,7 +285,8 @@ def gen_program(t, ctx, csres=None):
     return prog
 
 
-def build_document(t, pieces, csres=None):
+def build_document(t, pieces, csres=None, prelude=None):
+    """prelude: content of an extra first page (same resources) that the same interpreter runs before the page under test."""
     objects = {1: {b"Type": Name(b"Catalog"), b"Pages": Ref(2, 0)}, 2: {b"Type": Name(b"Pages"), b"Kids": [Ref(3, 0)], b"Count": 1}}
     resources = {}
     if csres:
@@ -304,6 +305,10 @@ def build_document(t, pieces, csres=None):
         objects[10 + i] = docs.content_stream(p, flate=t.coin(25, 100, "flate"))
         refs.append(Ref(10 + i, 0))
     objects[3] = {b"Type": Name(b"Page"), b"Parent": Ref(2, 0), b"MediaBox": [0, 0, 600, 800], b"Resources": resources, b"Contents": refs[0] if len(refs) == 1 and t.coin(50) else refs}
+    if prelude is not None:
+        objects[5] = docs.content_stream(prelude)
+        objects[4] = {b"Type": Name(b"Page"), b"Parent": Ref(2, 0), b"MediaBox": [0, 0, 600, 800], b"Resources": resources, b"Contents": Ref(5, 0)}
+        objects[2] = {b"Type": Name(b"Pages"), b"Kids": [Ref(4, 0), Ref(3, 0)], b"Count": 2}
     return docs.build_pdf(objects, 1).getvalue()
 
 
@@ -323,7 +328,8 @@ def interpret(data, pol):
         dev = PDFPageAggregator(rm, laparams=None)
         interp = PDFPageInterpreter(rm, dev)
         pages = list(PDFPage.get_pages(BytesIO(data)))
-        interp.process_page(pages[0])
+        for page in pages:  # (one interpreter for all pages; the page under test is the last one)
+            interp.process_page(page)
         return shapes_of(dev.get_result(), [])
     finally:
         seams.CHUNK.policy = None
@@ -426,7 +432,13 @@ def run_document(t, ctx, prog, csres, devs, scen, label):
         pieces = gfx.split_stream(data, splits, t) if split else [data]
         if len(pieces) > 1:
             ctx.probe("split into >1 streams")
-        pdf = build_document(t, pieces, csres)
+        prelude = None
+        if t.coin(20, 100, "prelude"):
+            # an earlier page of the same document, run by the same interpreter, that ends in the middle of a path, inside
+            # q, with colours, width and dash set: a page starts from the initial state whatever came before it
+            prelude = t.pick([b"3 w [2 1] 0 d 1 0 0 RG 0 1 0 rg q 2 0 0 2 5 5 cm 10 10 m 50 50 l 70 10 l", b"q q 0.5 g 7 w 100 100 50 50 re", b"10 10 m 20 20 l h 30 30 m", b"/CS0 cs 1 1 1 scn 5 5 m 6 6 l 9 9 l W"], "prelude.content")
+            ctx.probe("earlier page ends inside a path")
+        pdf = build_document(t, pieces, csres, prelude)
         pol, pdesc = seams.draw_chunk_policy(t, None)
         ctx.seam("chunk")
         cfg = "%spieces=%r; chunk=%s; colour-space resources=%r" % (label, pieces, pdesc, csres)
